@@ -535,12 +535,17 @@ def splitter_selection(ctx, rng):
     cases = [("one idle rule, the event divides", [never_v], [ev_on], [binom, dupl], 1),
              ("two idle rules, the event divides", [never_v, never_d], [ev_on], [binom, perf, dupl], 2),
              ("the rule divides, the event is idle", [fires_t], [ev_off], [perf, dupl], 0),
-             ("second rule divides, first rule and event idle", [never_v, fires_t], [ev_off], [binom, dupl, perf], 1)]
-    for name, drs, des, sps, which in cases:
+             ("second rule divides, first rule and event idle", [never_v, fires_t], [ev_off], [binom, dupl, perf], 1),
+             # two rules that become true in the same step: the rules are checked in the order they were added and the first
+             # that holds divides the cell (`apply_division_rules`), so every division fits the first rule's splitter
+             ("both rules hold in the same step, the first one added divides", [fires_t, ("time", {"threshold": "tthr"})], [ev_off], [dupl, binom, perf], 0),
+             ("both rules hold in the same step (other order of splitters)", [("time", {"threshold": "tthr"}), fires_t], [ev_off], [perf, dupl, binom], 0)]
+    for ci, (name, drs, des, sps, which) in enumerate(cases):
         spec = dict(base, div_rules=drs, div_events=des, splitters=sps)
         T = [j * spec["dt"] for j in range(spec["npts"])]
         for safe in (False, True):
-            seed = rng.randint(1, 2**31)
+            # (the cases added later take fixed seeds, so that the random stream of everything after them is what it was)
+            seed = rng.randint(1, 2**31) if ci < 4 else 7919 * (ci + 1) + int(safe)
             ctx.begin_case({"spec": spec, "grid": T, "seed": seed, "single": False, "safe": safe, "only_splitter": which, "scenario": name})
             status, nodes, Mr = run_real(spec, T, seed, False, safe=safe)
             ctx.evaluated()
